@@ -65,11 +65,11 @@ def cz(z):
 
 
 MUXOP = {"prefix": "OpPrefix", "exact": "OpExact", "dir": "OpDir"}
-ERR = {"nil": 0, "miss": 1, "badmethod": 2, "panic": 3,
+ERR = {"nil": 0, "miss": 1, "e:miss": 1, "badmethod": 2, "panic": 3,
        "e:notfound": 4, "e:internal": 5, "e:unauth": 6, "e:invalid": 7, "e:plain": 8}
-LEAF = {"": 0, "notfound": 4, "internal": 5, "unauth": 6, "invalid": 7, "plain": 8}
+LEAF = {"": 0, "miss": 1, "notfound": 4, "internal": 5, "unauth": 6, "invalid": 7, "plain": 8}
 STATUS = {"nil": 200, "miss": 404, "badmethod": 400, "panic": 0, "e:notfound": 404, "e:internal": 500,
-          "e:unauth": 403, "e:invalid": 400, "e:plain": 500}
+          "e:unauth": 403, "e:invalid": 400, "e:plain": 500, "e:miss": 404}
 EV = {"auth": 0, "resource": 1, "guest": 2, "user": 3, "admin": 4, "setup": 5, "signin": 6, "redirect": 7}
 RES = {"nil": 0, "miss": 1, "needsignin": 2, "panic": 3}
 ISADMIN = {"nil": 0, "true": 1, "false": 2, "lvl2": 3, "root": 4}
@@ -95,6 +95,35 @@ def cbeh(b):
 def op_method(x):
     """Get/Post are MethodFile with the net/http method names."""
     return {"get": "GET", "post": "POST", "jsoncall": "POST", "call": "POST"}.get(x["op"], x.get("m", ""))
+
+
+def hh(x):
+    return "None" if x.get("nil") else "(Some %d)" % x["h"]
+
+
+def rop(x):
+    if x["op"] == "index":
+        return "RIndex %s" % hh(x)
+    if x["op"] == "default":
+        return "RDefault %s" % hh(x)
+    if x["op"] in ("dir", "dirsvc"):
+        return "RDir %s %s" % (cs(x.get("p", "")), hh(x))
+    if x["op"] == "call":
+        return "RCall %s %s" % (cs(x.get("p", "")), hh(x))
+    return "RFile %s %s %s" % (cs(op_method(x)), cs(x.get("p", "")), hh(x))
+
+
+def seq_order(c):
+    """The routers that are handed the context, in order.  tiers mode: Auth.Serve, Resource, Guest, then User
+    only for a signed-in request and Admin only for an admin (the default predicate) - the gating itself is
+    the subject of the tiers streams."""
+    seq = c.get("seq") or []
+    n = len(c["routers"])
+    if c.get("mode") == "tiers":
+        u, l = c.get("u0", ""), c.get("l0", 0)
+        keep = [True, True, True, u != "", u != "" and l > 0]
+        seq = [x for x, kp in zip(seq, keep) if kp]
+    return [x for x in seq if 0 <= x < n]
 
 
 def paths_of(c, sets):
@@ -123,20 +152,43 @@ def to_coq(c, sets):
         qs = "Q_seg" if c.get("sqset") == "segq" else clist(clist(cs(s) for s in q) for q in c.get("sq") or [])
         finds = clist("(%d%%nat, %s, %s)" % (f["n"], cs(f["v"]), cs(f["x"])) for f in o.get("sfinds") or [])
         return "CSeg %s %s %s %s" % (adds, clist(str(x) for x in o.get("oks") or []), qs, finds)
+    if k == "steps":
+        on = c["on"]
+        items = []
+        le = []
+        for st, so in zip(c.get("steps") or [], o.get("steps") or []):
+            if st.get("mux"):
+                x = st["mux"]
+                items.append("MReg (%s %s %d) %d" % (MUXOP[x["op"]], cs(x["s"]), x["f"], so["ok"]))
+            elif st.get("rop"):
+                x = st["rop"]
+                if x.get("e"):
+                    le.append("(%d, %d)" % (x["h"], LEAF[x["e"]]))
+                items.append("RReg (%s) %d" % (rop(x), so["ok"]))
+            elif st.get("hset"):
+                items.append("HSet %s %d" % (cs(st["hset"]["h"]), st["hset"]["f"]))
+            elif on == "mux":
+                items.append("MServe %s %s" % (cs(st.get("path", "")), copt(so["tag"])))
+            elif on == "host":
+                items.append("HServe %s %s" % (cs(st.get("path", "")), copt(so["tag"])))
+            else:
+                items.append("RServe %s %s (%s, %s, %d)" % (cs(st.get("path", "")), cs(st.get("method", "")),
+                                                           cz(so["tag"]), cs(so.get("rel", "")),
+                                                           ERR.get(so.get("err", ""), 99)))
+        if on == "mux":
+            return "CMuxSteps %s" % clist(items)
+        if on == "host":
+            return "CHostSteps %s" % clist(items)
+        return "CRouterSteps %s %s" % (clist(le), clist(items))
+    if k == "seq":
+        defs = clist(clist(rop(x) for x in d["ops"]) for d in c["routers"])
+        le = clist("(%d, %d)" % (x["h"], LEAF[x["e"]]) for d in c["routers"] for x in d["ops"] if x.get("e"))
+        roks = clist(clist(str(x) for x in r) for r in o.get("roks") or [])
+        reqs = clist("(%s, %s)" % (cs(q["path"]), cs(q["method"])) for q in c.get("reqs") or [])
+        obs = clist("(%s, %d, %s)" % (clist("(%s, %s)" % (cz(h["tag"]), cs(h.get("rel", ""))) for h in q.get("hits") or []),
+                                      ERR.get(q["err"], 99), cs(q.get("relafter", ""))) for q in o.get("seqs") or [])
+        return "CSeq %s %s %s %s %s %s" % (defs, le, roks, clist("%d%%nat" % i for i in seq_order(c)), reqs, obs)
     if k in ("router", "entry"):
-        def hh(x):
-            return "None" if x.get("nil") else "(Some %d)" % x["h"]
-
-        def rop(x):
-            if x["op"] == "index":
-                return "RIndex %s" % hh(x)
-            if x["op"] == "default":
-                return "RDefault %s" % hh(x)
-            if x["op"] in ("dir", "dirsvc"):
-                return "RDir %s %s" % (cs(x.get("p", "")), hh(x))
-            if x["op"] == "call":
-                return "RCall %s %s" % (cs(x.get("p", "")), hh(x))
-            return "RFile %s %s %s" % (cs(op_method(x)), cs(x.get("p", "")), hh(x))
         defs = clist(clist(rop(x) for x in d["ops"]) for d in c["routers"])
         le = clist("(%d, %d)" % (x["h"], LEAF[x["e"]]) for d in c["routers"] for x in d["ops"] if x.get("e"))
         roks = clist(clist(str(x) for x in r) for r in o.get("roks") or [])
@@ -321,7 +373,7 @@ def ref_serve(routers, i, rest, isdir, method, depth=0):
         tag, e = h
         if tag >= 1000 and tag - 1000 < len(routers):
             return ref_serve(routers, tag - 1000, rest, isdir, method, depth + 1)
-        return (tag, "/".join(rest), "e:" + e if e else "nil")
+        return (tag, "/".join(rest), ("miss" if e == "miss" else "e:" + e) if e else "nil")
 
     def notfound(rest):
         return call(r["default"], rest) if r["default"] is not None else (-1, "", "miss")
@@ -350,10 +402,119 @@ def oracle_router(c, sets):
         p = q["path"]
         want = ref_serve(routers, 0, segs(p), p.endswith("/"), q["method"])
         g = (got["tag"], got.get("rel", ""), got["err"])
+        if got.get("n", 0) > 1:
+            return ("request %s %r ran %d handlers; a request is dispatched to one" % (q["method"], p, got["n"]),
+                    {"req": q, "got": g, "want": want, "class": "dispatch"})
         if g != want:
             return ("request %s %r reached handler %d (rel %r, result %s); longest-route rule gives handler %d "
                     "(rel %r, result %s)" % ((q["method"], p) + g + want),
                     {"req": q, "got": g, "want": want, "class": "panic" if got["err"] == "panic" else "dispatch"})
+    return None
+
+
+def oracle_seq(c, sets):
+    """One context handed to several routers in a row: every router routes the request's own path by the
+    longest-route rule; the first that does not miss decides; the leaves that ran are exactly theirs."""
+    o = c["obs"]
+    routers, bad = ref_routers(c, o.get("roks") or [])
+    if bad:
+        return bad
+    order = seq_order(c)
+    for q, got in zip(c.get("reqs") or [], o.get("seqs") or []):
+        p = q["path"]
+        hits, final = [], "miss"
+        for i in order:
+            tag, rel, res = ref_serve(routers, i, segs(p), p.endswith("/"), q["method"])
+            if tag >= 0:
+                hits.append({"tag": tag, "rel": rel})
+            if res != "miss":
+                final = res
+                break
+        g = ([(h["tag"], h.get("rel", "")) for h in got.get("hits") or []], got["err"])
+        w = ([(h["tag"], h["rel"]) for h in hits], final)
+        if g != w:
+            return ("request %s %r through routers %r on one context ran handlers %r (result %s); each router "
+                    "routing the request's own path gives %r (result %s)" % (q["method"], p, order, g[0], g[1], w[0], w[1]),
+                    {"req": q, "got": g, "want": w, "class": "dispatch"})
+        if got["err"] == "miss" and got.get("relafter", "") != "/".join(segs(p)):
+            return ("request %s %r: every router missed, and the context is left at %r instead of %r"
+                    % (q["method"], p, got.get("relafter", ""), "/".join(segs(p))),
+                    {"req": q, "got": got, "class": "context"})
+    return None
+
+
+def oracle_steps(c, sets):
+    """One long-lived object: every request is answered from what is registered at that moment."""
+    o = c["obs"]
+    on = c["on"]
+    exacts, prefixes, table = {}, {}, {}
+    rt = {"index": None, "default": None, "nodes": {}}
+    for n, (st, so) in enumerate(zip(c.get("steps") or [], o.get("steps") or [])):
+        if st.get("mux"):
+            op = st["mux"]
+            x, f = op["s"], op["f"]
+
+            def ex(x):
+                if x in exacts:
+                    return False
+                exacts[x] = f
+                return True
+
+            def pre(x):
+                if x == "" or x in prefixes:
+                    return False
+                prefixes[x] = f
+                return True
+            if op["op"] == "prefix":
+                want = pre(x)
+            elif op["op"] == "exact":
+                want = ex(x)
+            elif x == "/":
+                want = ex(x) and pre(x)
+            else:
+                t = x[:-1] if x.endswith("/") else x
+                want = ex(t) and pre(t + "/")
+            if so["ok"] == 2 or want != (so["ok"] == 1):
+                return "step %d: registration %r answered %d" % (n, op, so["ok"]), {"step": n, "class": "register"}
+        elif st.get("rop"):
+            op = st["rop"]
+            sub = {"routers": [{"ops": [op]}]}
+            nil = bool(op.get("nil"))
+            if op["op"] in ("index", "default"):
+                rt[op["op"]] = None if nil else (op["h"], op.get("e", ""))
+                want = 1
+            else:
+                r = tuple(segs(op.get("p", "")))
+                if nil or not r:
+                    want = 2
+                elif r in rt["nodes"]:
+                    want = 0
+                else:
+                    want = 1
+                    rt["nodes"][r] = (op["op"] in ("dir", "dirsvc"), op_method(op), (op["h"], op.get("e", "")))
+            if want != so["ok"]:
+                return "step %d: registering %r answered %d, expected %d" % (n, op, so["ok"], want), {"step": n, "class": "register"}
+        elif st.get("hset"):
+            table[st["hset"]["h"]] = st["hset"]["f"]
+        else:
+            p = st.get("path", "")
+            if on == "mux":
+                if p in exacts:
+                    want = (exacts[p], "", "nil")
+                else:
+                    w = longest(prefixes, p)
+                    want = (prefixes[w], "", "nil") if w is not None else (-1, "", "miss")
+                g = (so["tag"], "", so.get("err", ""))
+            elif on == "host":
+                want = (table[p], "", "nil") if p in table else (-1, "", "miss")
+                g = (so["tag"], "", so.get("err", ""))
+            else:
+                want = ref_serve([rt], 0, segs(p), p.endswith("/"), st.get("method", ""))
+                g = (so["tag"], so.get("rel", ""), so.get("err", ""))
+            if so.get("n", 0) > 1 or g != want:
+                return ("step %d: request %r reached handler %d (%s, %d handlers ran); what is registered at that "
+                        "moment gives handler %d (%s)" % (n, p, g[0], g[2], so.get("n", 0), want[0], want[2]),
+                        {"step": n, "got": g, "want": want, "class": "dispatch"})
     return None
 
 
@@ -491,7 +652,8 @@ def oracle_host(c, sets):
 
 
 ORACLES = {"mux": oracle_mux, "trie": oracle_trie, "seg": oracle_seg, "router": oracle_router,
-           "tiers": oracle_tiers, "host": oracle_host, "entry": oracle_entry}
+           "tiers": oracle_tiers, "host": oracle_host, "entry": oracle_entry, "seq": oracle_seq,
+           "steps": oracle_steps}
 
 
 def impl_oracle(c, sets):
@@ -537,6 +699,15 @@ def tally(dist, c):
     elif k == "entry":
         for e in o.get("entry") or []:
             bump("entry:status-%d%s" % (e["status"], "" if e["reached"] else "-by-net/http"))
+    elif k == "seq":
+        for q in o.get("seqs") or []:
+            bump("seq:%s:%s:%d-leaves" % (c.get("mode"), q["err"][:6], len(q.get("hits") or [])))
+    elif k == "steps":
+        for st, so in zip(c.get("steps") or [], o.get("steps") or []):
+            if st.get("serve"):
+                bump("steps:%s:%s" % (c["on"], "hit" if so["tag"] >= 0 else so.get("err", "")[:6]))
+            else:
+                bump("steps:%s:register-%s" % (c["on"], ("refused", "ok", "panic")[so["ok"]]))
 
 
 def case_key(c):
@@ -551,8 +722,10 @@ def trivial(c):
         return not c.get("adds")
     if k == "seg":
         return not c.get("sadds")
-    if k in ("router", "entry"):
+    if k in ("router", "entry", "seq"):
         return not any(d["ops"] for d in c["routers"])
+    if k == "steps":
+        return not any(not st.get("serve") for st in c.get("steps") or [])
     if k == "host":
         return not c.get("hsets")
     return False
@@ -588,7 +761,11 @@ def variants(c):
             yield d
     k = c["kind"]
     lists = {"mux": ("ops", "paths"), "trie": ("adds", "paths"), "seg": ("sadds", "sq"),
-             "router": ("reqs",), "entry": ("raws",), "host": ("hsets", "hreqs")}.get(k, ())
+             "router": ("reqs",), "entry": ("raws",), "host": ("hsets", "hreqs"), "seq": ("reqs",),
+             "steps": ("steps",)}.get(k, ())
+    if k == "steps":
+        yield from drop("steps")
+        return
     for f in lists[1:] if len(lists) > 1 else lists:
         seq = c.get(f) or []
         if len(seq) > 1:                      # keep a single request
@@ -600,7 +777,7 @@ def variants(c):
         yield from drop(lists[0])
     if k == "entry":
         yield from drop("hsets")
-    if k in ("router", "entry"):
+    if k in ("router", "entry", "seq"):
         for ri, r in enumerate(c["routers"]):
             for oi in range(len(r["ops"])):
                 d = json.loads(json.dumps(c))
@@ -610,7 +787,13 @@ def variants(c):
 
 def shrink(binp, c, sets, rounds=60):
     """Greedy delta-debugging on the implementation side: keep the first smaller
-    case on which the oracle still fails."""
+    case on which the oracle still fails in the same way (same failure class)."""
+    w0 = impl_oracle(c, sets)
+    cls = w0[1].get("class", "dispatch") if w0 else None
+
+    def fails(r):
+        w = impl_oracle(r, sets)
+        return bool(w) and w[1].get("class", "dispatch") == cls
     cur = explicit(c, sets)
     for _ in range(rounds):
         vs = list(variants(cur))
@@ -619,7 +802,7 @@ def shrink(binp, c, sets, rounds=60):
         res = run_cases(binp, vs)
         if res is None:
             break
-        nxt = next((r for r in res if impl_oracle(r, sets)), None)
+        nxt = next((r for r in res if fails(r)), None)
         if nxt is None:
             break
         cur = nxt
@@ -627,7 +810,7 @@ def shrink(binp, c, sets, rounds=60):
 
 
 HEADER = ("From Coq Require Import List NArith ZArith.\n"
-          "From Verif Require Import Aries.Str Aries.Radix Aries.SegTrie Aries.Router Aries.Tiers Aries.Entry Aries.Corr.\n"
+          "From Verif Require Import Aries.Str Aries.Radix Aries.SegTrie Aries.Router Aries.Tiers Aries.Entry Aries.CtxSeq Aries.Corr.\n"
           "Import ListNotations.\nLocal Open Scope N_scope.\n")
 
 
